@@ -77,6 +77,10 @@ HAND = [
     ("path-wild", RS(r(W("p", "path"), L("-"), W("v")), r(L("a-b")), r(W("p", "path"), L("-"), W("v"), L("/z"))), False),
     # filters whose regex looks at its left context (start anchor, word boundary, look-behind): a filter is applied to the
     # text at the cursor, what precedes the wildcard in the path is not its business (since seed C01-i)
+    # rules of one shape whose wildcard at the same position carries different filters, registered for different methods:
+    # the router may refuse the later ones (it does), or serve every rule behind its own filter (since seed C01-j)
+    ("filter-clash", RS(r(L("n/"), W("v", "re", "[a-c]+")), r(L("n/"), W("v", "int"), m=POST), r(L("q/"), W("x", "int"), L("/z")),
+                        r(L("q/"), W("x"), L("/z"), m="PUT")), True),
     ("re-context", RS(r(L("i/"), W("c", "re", "^[ab]+")), r(L("n"), W("k", "re", r"\B[0-9]")), r(L("t-"), W("t", "re", "(?<!-)[ab]"), L("/x")),
                       r(L("w"), W("b", "re", r"\b[0-9]"), L("z"))), True),
     ("float", RS(r(L("v/"), W("f", "float")), r(L("v/"), W("f", "float"), L("/x")), r(L("v/1")), r(L("v/1.")),), True),
@@ -127,6 +131,10 @@ def gen_sets(n, seed):
     return out
 
 
+def group_key(spec):
+    return (positions(spec), tuple((el.filter, el.arg) for el in spec if not hasattr(el, "text")))
+
+
 class Built:
     """router built by the real code from rendered rules + what the oracle needs"""
 
@@ -150,10 +158,11 @@ class Built:
                 self.rejected.append((idx, "%s (%s: %s)" % (text, type(e).__name__, str(e).split("\n")[0])))
                 continue
             self.accepted.append((spec, meth, idx))
-        # groups: rules sharing position string (same pattern => same filters, else the later add was rejected)
+        # groups: rules sharing position string AND the filters of their wildcards (rules of one shape with different
+        # filters are different rules: each is matched behind its own filter, since seed C01-j)
         self.groups = {}
         for spec, meth, idx in self.accepted:
-            self.groups.setdefault(positions(spec), []).append((spec, meth, idx))
+            self.groups.setdefault(group_key(spec), []).append((spec, meth, idx))
 
 
 def oracle(built, path, method, allow_empty):
@@ -167,7 +176,7 @@ def oracle(built, path, method, allow_empty):
         if best is None:
             best = (pos, members, vals)
             continue
-        w = prefer(best[0], pos)
+        w = None if best[0][0] == pos[0] else prefer(best[0][0], pos[0])
         if w is None:
             return ("undetermined",)
         if w == "b":
@@ -216,14 +225,16 @@ def same(a, b):
     return a == b
 
 
-EXPECT_REJECTED = {"path": {1}, "anon": {0, 2}, "path-short": {1}}
+EXPECT_REJECTED = {"path": {1}, "anon": {0, 2}, "path-short": {1}, "filter-clash": {1, 3}}
+MAY_ACCEPT = {"filter-clash"}      # sets whose listed rules may also be accepted (then they are part of the rule-by-rule semantics)
 
 
-def make_resolve(rules, flavour, N, ascii_only, method=GET, strict=False):
+def make_resolve(rules, flavour, N, ascii_only, method=GET, strict=False, may_accept=False):
     built = Built(rules, flavour)
 
     def q(path: str):
-        if strict is not False and {i for i, _ in built.rejected} != strict:
+        rejected = {i for i, _ in built.rejected}
+        if strict is not False and (not rejected <= strict if may_accept else rejected != strict):
             # apart from the rules listed in EXPECT_REJECTED (a second filter on a node that already has one; an
             # anonymous ':' wildcard followed by text) a hand-written set holds rules that are valid by the documented
             # syntax: a router that cannot take one of them answers 'not found' for paths a rule of the set matches
@@ -266,7 +277,7 @@ def make_removed(rules, flavour, N, how, arg):
     built.accepted = [a for a in built.accepted if a[2] not in gone]
     built.groups = {}
     for spec, meth, idx in built.accepted:
-        built.groups.setdefault(positions(spec), []).append((spec, meth, idx))
+        built.groups.setdefault(group_key(spec), []).append((spec, meth, idx))
 
     def q(path: str):
         assume(len(path) <= N)
@@ -396,9 +407,10 @@ def queries(tier):
                 N = 5
             if tag in ("lit-split", "backtrack", "root-wild", "deep") and T:
                 N = 7
-            methods = [GET] if tag != "samepat" else [GET, POST, "PUT"]
+            methods = [GET] if tag not in ("samepat", "filter-clash") else [GET, POST, "PUT"]
             for m in methods:
-                fn, built = make_resolve(rules, fl, N, asc, m, strict=False if tag.startswith("gen") else EXPECT_REJECTED.get(tag, set()))
+                fn, built = make_resolve(rules, fl, N, asc, m, strict=False if tag.startswith("gen") else EXPECT_REJECTED.get(tag, set()),
+                                         may_accept=tag in MAY_ACCEPT)
                 out.append(Q("resolve/%s/f%d/%s" % (tag, fl, m), fn,
                              "rules %r; every path with <= %d code points%s; method %s" % (
                                  built.rendered, N, " (< 128)" if asc else " (any code point)", m),
